@@ -29,12 +29,13 @@ SYM_ROUNDS = 3
 
 
 class Outcome:
-    __slots__ = ('kind', 'env', 'val')
+    __slots__ = ('kind', 'env', 'val', 'node')
 
-    def __init__(self, kind, env, val=None):
+    def __init__(self, kind, env, val=None, node=None):
         self.kind = kind      # next | ret | brk | cont | raise
         self.env = env
         self.val = val
+        self.node = node
 
 
 class Frame:
@@ -95,6 +96,7 @@ class Interp:
         self.visited_fns = set()
         self.default_objs = {}
         self.entry_returns = []
+        self.entry_return_nodes = []
         self.raises = []
         self.trace_hooks = {}     # qualname -> callable(interp, fn, env, outcome)
         from . import npmodel
@@ -230,15 +232,19 @@ class Interp:
             else:
                 outs = self.exec_block(body, env)
             rets = []
+            ret_nodes = []
             for oc in outs:
                 if oc.kind == 'ret':
                     rets.append(oc.val)
+                    ret_nodes.append(oc.node)
                 elif oc.kind == 'next':
                     rets.append(NONE())
+                    ret_nodes.append(None)
                 elif oc.kind == 'raise':
                     self.raises.append((fn.qualname, oc.val))
             if entry:
                 self.entry_returns = list(rets)
+                self.entry_return_nodes = list(ret_nodes)
             hook = self.trace_hooks.get(fn.qualname)
             if hook:
                 hook(self, fn, outs)
@@ -402,7 +408,7 @@ class Interp:
         v = self.eval(st.value, env) if st.value is not None else NONE()
         if self.cond > 0:
             v = snapshot(v)
-        return [Outcome('ret', env, v)]
+        return [Outcome('ret', env, v, node=st)]
 
     def st_Raise(self, st, env):
         name = None
